@@ -239,6 +239,9 @@ func familyPart(role string, seq []fclass, fam string, seed int64, thorough bool
 			nCases := -1
 			outcomes := map[string]int{}
 			for ci := part; nCases < 0 || ci < nCases; ci += parts {
+				if c.NumFailures() >= 3 {
+					break // (a broken tree: the first failing cases of this part are the report)
+				}
 				if c.Expired() {
 					c.Incomplete(fmt.Sprintf("%s: budget expired at case %d of %d", scenName, ci, nCases))
 					break
